@@ -133,6 +133,7 @@ class Exec:
         self.tag = tag
         self.scopes = [dict()]
         self.alive = TRUE
+        self.returned = FALSE       # paths on which the per-event code returned early (no fault)
         self.rows = []            # (guard, treename, {branch: value})
         self.faults = []          # (guard, kind, info)
         self.uninit_reads = []    # (guard, name)
@@ -280,6 +281,9 @@ class Exec:
             return StrV(cpp_unescape(e[1]))
         if k == "paren":
             return self.ev_expr(e[1], g)
+        if k == "id" and e[1] in ("M_PI", "TMath::Pi") and not self._declared(e[1]):
+            from .model import PI_Q
+            return Num("double", PI_Q)
         if k == "id":
             name = e[1]
             if "::" in name and not self._declared(name):
@@ -922,7 +926,13 @@ class Exec:
         elif k == "using":
             pass          # name lookup only (type names are resolved with and without their namespace)
         elif k == "return":
-            raise Unsupported("return inside generated code")
+            if st[1]:
+                raise Unsupported("return with a value inside generated code")
+            # the per-event function ends here WITHOUT a fault: nothing after it runs on this path (same mechanism as a fault,
+            # but no fault record) and the path is remembered as 'ended early'
+            gg = And(g, self.alive)
+            self.returned = Or(self.returned, gg)
+            self.alive = And(self.alive, Not(g))
         elif k == "opaque":
             raise Unsupported(f"statement outside subset: {st[1][:80]}")
         else:
